@@ -24,6 +24,9 @@ import YarlProofs.C02Tokens
   segment, per query pair, delimiter status of the stored path and query), the `parse_qsl` form of the query clause
   (C12More.lean) and the with_user / with_password statement (C01Str.lean) are stated there as `C02_headline_…`;
   the GAPS block below cites them.
+  Continued further in C02HeadlineMore2.lean (C02More.lean's lemma library imports C02HeadlineMore.lean): which path
+  segments survive dot-segment removal under an authority (GAPS 2, open half) and C02 at URL level for build, every
+  text-accepting modifier, `/`, joinpath, the query operations and join (GAPS 3).
 -/
 set_option linter.unusedVariables false
 namespace Yarl
@@ -218,27 +221,55 @@ GAPS:
     `rawPassword e u` succeed, are present exactly when `split_netloc` reads a non-empty user / a password from the
     supplied authority (which is the RFC split `Rfc.authoritySplit` of it), and percent-decode to the same bytes as
     those.
- 2. PARTLY CLOSED by C02_encodeUrl_segments, C02_encodeUrl_pairs, C07_encodeUrl_components (C07More.lean), see
+ 2. CLOSED by C02_encodeUrl_segments, C02_encodeUrl_pairs, C07_encodeUrl_components (C07More.lean) and — the half that
+    was open — C02_normalized_segments, C02_normalized_segments_sublist (C02More.lean), see
     C02_headline_constructor_path_segments, C02_headline_constructor_query_pairs,
-    C02_headline_constructor_delimiter_status (C02HeadlineMore.lean).  Proved for a constructed URL: (query, no side
+    C02_headline_constructor_delimiter_status (C02HeadlineMore.lean) and
+    C02_headline_constructor_dot_segment_survivors, C02_headline_constructor_dot_segment_survivors_sublist
+    (C02HeadlineMore2.lean).  Proved for a constructed URL: (query, no side
     condition) `u.query` IS the requoted supplied query; its '&'-pieces are the requoted supplied pieces one for one,
     key / "has '='" / value form-decode alike, and the literal / encoded '&' '=' ';' '+' tokens sit where they sat;
     (path) the '/'-segments of `u.path` are the requoted supplied segments one for one, with equal decoded bytes —
     PROVIDED the URL has no authority or no supplied segment decodes to "." or ".." — and in general `u.path` is `p1`
     or `normalize_path p1` for `p1` = the requoted supplied path, whose literal / encoded '/' and '+' sit where they
-    sat.  STILL OPEN: for a path WITH dot segments under an authority nothing is said about which segments survive
-    `normalizePath` (the segment count does change there: C02_headline_constructor_path_segments_fails_for_dot_segments;
-    the RFC 3986 5.2.4 behaviour of `normalizePath` itself is property C15), and the delimiter-status theorem is not
-    pushed through `normalizePath`.
- 3. PARTLY CLOSED by C01_with_user_reads_back, C01_with_password_reads_back (C01Str.lean), see
-    C02_headline_with_user_with_password_decoded (C02HeadlineMore.lean): for with_user(s) / with_password(s) on a
-    reachable URL, `raw_user` / `raw_password` of the result are exactly the QUOTER output of the argument, which
-    percent-decodes to its UTF-8 bytes (hypotheses: `HostOracleNoAt`, `UserinfoOK` of `UOp.joinRef` references — see
-    C01Headline.lean GAPS 7, 1c).  STILL OPEN, verbatim for the rest: no C02 theorem mentions build, with_path,
-    with_name, with_suffix, `/`, joinpath, with_query, extend_query, update_query, with_fragment, join at URL level.
-    The quoter-level facts for their configurations are above (…_supplied, …_user_password, …_fragment); the URL-level
-    counterpart is property C06's read-back family (C06_*_readback, C06More.lean, C13More.lean) and C12Url / C12More,
-    not C02.
+    sat.  NOW ALSO, for a path WITH dot segments under an authority: the stored segments are the requoted members of a
+    subsequence `K0` (same order, nothing new, nothing duplicated) of the supplied segments that do not decode to "." /
+    "..", each byte for byte the requoted supplied segment with the same decoded bytes, and inside every survivor a
+    literal / an encoded '/' or '+' sits where it sat (delimiter status pushed through `normalizePath`); never more
+    segments are stored than were supplied.  DEVIATION the module reports: the stored segments are NOT a plain sublist of
+    the supplied ones when the supplied path ENDS in a dot segment — ONE empty segment is appended (the trailing slash
+    RFC 3986 5.2.4 leaves: "/b/.." is stored "/" = "", ""): C02_headline_constructor_survivors_not_plain_sublist_for_trailing_dot_segment;
+    intended behaviour (C15).  WHAT REMAINS: the theorems say THAT the stored segments are such a subsequence, not WHICH
+    subsequence (that is `normalize_path_segments` = RFC 3986 5.2.4, property C15: C15_rfc); the segment count does
+    change there (C02_headline_constructor_path_segments_fails_for_dot_segments), "never change[s]" is to be read modulo C15.
+ 3. CLOSED (except `build(authority=…)`) by C01_with_user_reads_back, C01_with_password_reads_back (C01Str.lean) and
+    C02_build_user_password, C02_build_path, C02_build_query_string, C02_build_query_pairs, C02_build_fragment,
+    C02_with_user, C02_with_password, C02_with_fragment, C02_with_path, C02_with_name(_rejects_slash), C02_with_suffix,
+    C02_joinpath, C02_with_query_string / _pairs, C02_extend_query_string / _pairs, C02_update_query_pairs / _string,
+    C02_join_path, C02_join_segments(_reachable) (C02More.lean), see
+    C02_headline_with_user_with_password_decoded (C02HeadlineMore.lean) and C02_headline_build_user_password,
+    C02_headline_build_path, C02_headline_build_query, C02_headline_build_fragment,
+    C02_headline_with_user_with_password, C02_headline_with_fragment, C02_headline_with_path,
+    C02_headline_with_name_with_suffix, C02_headline_joinpath, C02_headline_query_string_argument,
+    C02_headline_query_pairs_argument, C02_headline_update_query, C02_headline_join_path, C02_headline_join_segments
+    (C02HeadlineMore2.lean).  Proved at URL level, for DECODED supplied text (reference value: its UTF-8 bytes; a supplied
+    "%2F" is the text "%2F" and is stored "%252F"): user / password / fragment are stored as the quoter output and
+    decode to the supplied bytes (hypotheses for with_user / with_password: `HostOracleNoAt`, `UserinfoOK` — see
+    C01Headline.lean GAPS 7, 1c); a path argument (build, with_path, `/`, joinpath) splits at exactly its literal '/',
+    no quoted segment contains a '/', each decodes to the supplied bytes, the OLD segments are kept byte for byte, and
+    the stored segments are all of them — or, under an authority with dot segments, their survivors (`C02_Survivors`,
+    with the trailing-slash deviation of item 2); with_name / with_suffix reject '/' and change ONE segment; a query
+    STRING (build(query_string=), with_query, extend_query) keeps its '&' / '=' as separators piece for piece ('+' =
+    space on both sides); a pairs / mapping argument gives exactly ONE '&'-piece per pair with the supplied bytes
+    (`C02_PairsStored`); update_query stores `MultiDict(old).update(new)` (C12) one piece per pair — for it a STRING is
+    ESCAPED text ("%41" is "A"; C12 observation C12_str_argument_pct_differs) and the OLD pairs must be `GoodPairs`
+    (true of every reachable URL); `join` only splices encoded segments: every raw part of the result is a raw part of
+    the base or the reference, "" or "/".  SIDE CONDITION the module reports: join needs a ROOTED base (a path next to an
+    authority is empty or starts with '/') — automatic for every base reachable through the auto-encoding API
+    (C02_join_segments_reachable), only violated by `encoded=True` bases:
+    C02_headline_join_fails_for_rootless_base_under_authority.  STILL OPEN: `build(authority=…)` (its user / password are
+    QUOTER-quoted like `build(user=…)`, no theorem); `encoded=True` calls (nothing is encoded there); list-valued
+    mappings for update_query (`SingleValued` is assumed there; C12 has them).
  4. CLOSED by C12_parseQsl_requote (C12More.lean), see C02_headline_query_parse_qsl (C02HeadlineMore.lean).  Proved:
     `parseQsl (Gen.QUERY_REQUOTER.run b s) = parseQsl s` for `PyStr s`, `NoSurrogate s` (text-level decoding with
     errors='replace' included), and at URL level `queryPairs u = parseQsl p.query` for a constructed URL (`p.query` the
